@@ -48,18 +48,26 @@ fn init_logging(opts: &Opts) -> Result<()> {
 }
 
 // Expand a list of file-paths or glob-patterns into a list of concrete paths.
-// FIXME: This currently eats non-existent files that are not
-// globs. Should we convert empty glob results into errors?
+// FIXME: Should we convert empty glob results into errors?
 fn expand_globs(patterns: &[String]) -> Result<Vec<PathBuf>> {
-    let paths = patterns.iter()
+    let expanded = patterns.iter()
         .map(|s| glob(s.as_str()))
         .collect::<result::Result<Vec<Paths>, _>>()?
         .iter_mut()
         // Force resolve each glob Paths iterator into a vector of the results...
         .map::<result::Result<Vec<PathBuf>, _>, _>(Iterator::collect)
         // And lift all the results up to the top.
-        .collect::<result::Result<Vec<Vec<PathBuf>>, _>>()?
-        .iter()
+        .collect::<result::Result<Vec<Vec<PathBuf>>, _>>()?;
+
+    // A name without any pattern characters that matches nothing is
+    // a missing file, not an empty glob.
+    for (pattern, found) in patterns.iter().zip(&expanded) {
+        if found.is_empty() && glob::Pattern::escape(pattern) == *pattern {
+            return Err(XcpError::InvalidSource("Source does not exist.").into());
+        }
+    }
+
+    let paths = expanded.iter()
         .flat_map(ToOwned::to_owned)
         .collect::<Vec<PathBuf>>();
 
